@@ -14,6 +14,8 @@ Trace == JsonDeserialize(IOEnv.TRACE_FILE)
 VARIABLES l, disk, mine, bs, cap
 
 Small3(v) == NatClamp(v)
+NdT(c, t) == IF c = "WriteSame16" THEN NatOfNum(t["ndob"]) ELSE 0
+NdA(c, e) == IF c = "WriteSame16" /\ "ndob" \in DOMAIN e.a THEN NatOfNum(e.a["ndob"]) ELSE 0
 JudgeIo(e, c, t) ==      \* c: class found from the opcode byte, t: fields the target reads off the CDB
     LET ph == Cmd[c].phase.k
         isw == ph \in {"out_data", "out_block"}
@@ -22,7 +24,8 @@ JudgeIo(e, c, t) ==      \* c: class found from the opcode byte, t: fields the t
         an == IF ph = "out_block" THEN Small3(e.a["nb"]) ELSE IF isw \/ isr THEN Small3(e.a["tl"]) ELSE 0 IN
     (IF c # e.cls THEN {<<"OpcodeOfMethod", c>>} ELSE {})
     \cup (IF (isw \/ isr) /\ (~NumEq(t["lba"], e.a["lba"]) \/ n # an) THEN {<<"TargetRecovers", ToJson(t)>>} ELSE {})
-    \cup (IF isw /\ ~(c = "WriteSame16" /\ NatOfNum(t["ndob"]) = 1) /\ e.dout # e.data THEN {<<"WriteDataReachesTarget", "">>} ELSE {})
+    \cup (IF isw /\ NdT(c, t) # NdA(c, e) THEN {<<"TargetRecovers", "NDOB " \o ToString(NdT(c, t))>>} ELSE {})
+    \cup (IF isw /\ NdT(c, t) = 0 /\ e.dout # e.data THEN {<<"WriteDataReachesTarget", "">>} ELSE {})
     \cup (IF isr /\ e.din_target # ReadBlocks(disk, t["lba"], n, bs) THEN {<<"HarnessTargetNotConformant", "">>} ELSE {})
     \cup (IF isr /\ e.din_seen # ReadBlocks(mine, e.a["lba"], an, bs) THEN {<<"ReadYourWrites", ToJson(ReadBlocks(mine, e.a["lba"], an, bs))>>} ELSE {})
     \cup (IF c = "ReadCapacity16" /\ "returned_lba" \in DOMAIN e.res /\ (~NumEq(e.res["returned_lba"], cap) \/ NatClamp(e.res["block_length"]) # bs)
@@ -33,11 +36,14 @@ JudgeIo(e, c, t) ==      \* c: class found from the opcode byte, t: fields the t
     \cup (IF c = "Inquiry" /\ "t10_vendor_identification" \in DOMAIN e.res /\ e.res["t10_vendor_identification"] # e.ident
           THEN {<<"IdentityReported", "">>} ELSE {})
 
-Wr(e, c, t, d, lbaOf(_), cnt, dat) ==
-    IF Cmd[c].phase.k = "out_data" THEN WriteBlocks(d, lbaOf("lba"), cnt, bs, dat)
+\* nd = 1: no data-out buffer (NDOB), the blocks become zero.  The target's view takes NDOB from the CDB it received,
+\* the caller's view from the argument the caller gave; a buffer shorter than a block (a command that announces a
+\* data-out phase it does not have) is written as far as it goes, the rest of the block reads as zero
+Blk(dat) == IF Len(dat) >= bs THEN SubSeq(dat, 1, bs) ELSE dat \o Zeros(bs - Len(dat))
+Wr(e, c, nd, d, lbaOf(_), cnt, dat) ==
+    IF Cmd[c].phase.k = "out_data" THEN WriteBlocks(d, lbaOf("lba"), cnt, bs, IF Len(dat) >= cnt * bs THEN dat ELSE dat \o Zeros(cnt * bs - Len(dat)))
     ELSE IF Cmd[c].phase.k = "out_block" THEN
-         WriteBlocks(d, lbaOf("lba"), cnt, bs,
-                     Repeat(IF c = "WriteSame16" /\ NatOfNum(t["ndob"]) = 1 THEN Zeros(bs) ELSE SubSeq(dat, 1, bs), cnt))
+         WriteBlocks(d, lbaOf("lba"), cnt, bs, Repeat(IF c = "WriteSame16" /\ nd = 1 THEN Zeros(bs) ELSE Blk(dat), cnt))
     ELSE d
 
 TInit == l = 1 /\ disk = [x \in {} |-> <<>>] /\ mine = [x \in {} |-> <<>>] /\ bs = 1 /\ cap = <<>>
@@ -46,8 +52,8 @@ StepIo(e, c) ==
         tgt(k) == t[k]
         cal(k) == e.a[k] IN
     /\ \A v \in JudgeIo(e, c, t) : PrintT(<<"VERDICT", ToJson([i |-> l, clause |-> v[1], detail |-> v[2]])>>)
-    /\ disk' = Wr(e, c, t, disk, tgt, IF Cmd[c].phase.k = "out_block" THEN Small3(t["nb"]) ELSE IF Cmd[c].phase.k = "out_data" THEN Small3(t["tl"]) ELSE 0, e.dout)
-    /\ mine' = Wr(e, c, t, mine, cal, IF Cmd[c].phase.k = "out_block" THEN Small3(e.a["nb"]) ELSE IF Cmd[c].phase.k = "out_data" THEN Small3(e.a["tl"]) ELSE 0, e.data)
+    /\ disk' = Wr(e, c, NdT(c, t), disk, tgt, IF Cmd[c].phase.k = "out_block" THEN Small3(t["nb"]) ELSE IF Cmd[c].phase.k = "out_data" THEN Small3(t["tl"]) ELSE 0, e.dout)
+    /\ mine' = Wr(e, c, NdA(c, e), mine, cal, IF Cmd[c].phase.k = "out_block" THEN Small3(e.a["nb"]) ELSE IF Cmd[c].phase.k = "out_data" THEN Small3(e.a["tl"]) ELSE 0, e.data)
 Step == /\ l <= Len(Trace)
         /\ LET e == Trace[l] IN
            IF e.ev = "reset"
